@@ -41,5 +41,14 @@ CLAIMS = {
           'Acceptance of escapes (digit counts, code point ranges, quote-specific escapes) is decided by exhaustive comparison of implementation, model and an independent recogniser over all bodies to length 3 quick / 4 thorough x 3 quote kinds, sampled to 6, and structured escapes of every form; partial proof.',
   'note': 'Enumeration bound is below the property text (5/6) for run time; longer bodies are sampled/structured.',
  },
+ 'C04': {
+  'category': 'proof',
+  'technique': 'Lean 4 proof that the precedence-climbing loop rebuilds every well-grouped tree (unbounded induction), generated precedence table = spec table, + exhaustive operator tuples through kernel, model and implementation',
+  'text': 'prec_table_spec: Operator::precedence regenerated from token.rs equals the spec table for all 48 operators (a changed entry breaks the proof). climb_flat / climb_preserves / wg_unique: for the loop of Parser::binary_expression as a pure function, '
+          'for every well-grouped tree of any size the loop returns exactly that tree from its operand/operator sequence, never drops or reorders anything, and the well-grouped tree is unique; left_assoc, tighter_left/right, operands_kept state the property sentences. '
+          'The kernel is tied to the code by running it (driver mode climb) beside the full parser model and the implementation on all pairs and triples (quick) / quadruples (thorough) of the 19 binary operators, through Parser::expression and parse_source; '
+          'unary x binary slots, unary x postfix forms (incl. `<-chan T(c)`), redundant and needed parentheses are decided by correspondence + specTree oracle.',
+  'note': 'The step from the kernel to the model\'s binaryExpressionBody (token-level, with the scanner underneath) is by correspondence, not yet by theorem.',
+ },
 }
 NOT_CLAIMED = {}
